@@ -47,6 +47,7 @@ where
     | [b] => b < 128
     | b :: r => b ≥ 128 && b < 256 && canonRest r
 
+--@driver vlq. Vlq.handle
 /-- line protocol -/
 def handle (op : String) (args : List String) : String :=
   match op, args with
